@@ -219,6 +219,6 @@ func TestC17(t *testing.T) {
 	run.Assumptions = append(run.Assumptions,
 		"the share-distribution model in harness/ref/envelope_model.go (sequential hand-out, distinct share ids, grant reachable iff a listed key is offered) is what doc/ENVELOPE.md and envelope.proto describe",
 		"only the stated direction is checked: accepted => openable by all recipients; a rejected but openable configuration is not a violation of the property as written",
-		"sealing randomness comes from a deterministic stream; payload/context come from a fixed menu; configurations outside the bound are not covered")
+		"BuildEnvelope is given a deterministic stream, but circl's Ristretto255 group ignores the reader and draws the secret from crypto/rand: share values differ from run to run and are never compared; payload/context come from a fixed menu; configurations outside the bound are not covered")
 	run.Finish(t)
 }
